@@ -52,7 +52,8 @@ class Triangle(Domain):
         _, _, _, dir_1, _, dir_3 = self._construct_triangle(params, device=device)
         # volume equals the determinate of the matrix [dir_1, dir_2] / 2
         volume = -dir_1[:, :1] * dir_3[:, 1:] + dir_1[:, 1:] * dir_3[:, :1]
-        return volume / 2.0
+        # the determinant is negative for clockwise ordered corners
+        return torch.abs(volume) / 2.0
 
     def _construct_triangle(self, params=Points.empty(), device="cpu"):
         origin = self.origin(params, device).reshape(-1, 2)
@@ -295,6 +296,11 @@ class TriangleBoundary(BoundaryDomain):
         self._add_local_normal_vector(normals, bary_x, normal_dir_3, 0.0)
         self._add_local_normal_vector(normals, (bary_x + bary_y), normal_dir_2, 1.0)
         self._add_local_normal_vector(normals, bary_y, normal_dir_1, 0.0)
+        # for clockwise ordered corners the edge normals above point inwards:
+        orientation = torch.sign(
+            -dir_1[:, :1] * dir_3[:, 1:] + dir_1[:, 1:] * dir_3[:, :1]
+        )
+        normals = normals * orientation
         # scale normal vectors if there where in a corner:
         return torch.divide(normals, torch.linalg.norm(normals, dim=1).reshape(-1, 1))
 
